@@ -337,6 +337,11 @@ def approx(a, b, scale=1, eps=fractions.Fraction(1, 10 ** 9)):
     return SymBool(z3.And(d <= bound, -d <= bound))
 
 
+def approx_le(a, b, scale=1, eps=fractions.Fraction(1, 10 ** 9)):
+    """a <= b + eps * scale (see approx)."""
+    return SymBool(lift(a) <= lift(b) + _rv(eps) * lift(scale))
+
+
 def eq(a, b):
     """Obligation-level equality (never forks)."""
     if is_sym(a) or is_sym(b) or z3.is_expr(a) or z3.is_expr(b):
